@@ -30,7 +30,20 @@ OPS = [
     "appX",  # append(x, 3.5)        (incompatible field)
     "track",  # tracker(): initialize(a) + handle(a, 0.5) + handle(b, 4.0) + finalize()
     "appE",  # append(b, 2.5) once more (equal time stamps are allowed)
+    "startC",  # start_writing(c) with a COMPLEX field of the same grid and shape (a new session may change dtype)
+    "appC",  # append(c, 3.0); enabled only while the template of the current session is the complex field
 ]
+
+
+def enabled(op, model):
+    """preconditions of the alphabet: a complex field is only appended in a session started with it"""
+    if op == "appC":
+        return model.template == "ab" and model.session_complex
+    if op in ("start", "track"):
+        # a session with a real template must not inherit complex frames (they cannot be read through it)
+        survives = model.mode == "append"
+        return not (survives and any(any(v.imag != 0 for v in d) for _, d in model.frames))
+    return True
 
 
 # ----------------------------------------------------------------------------------------------
@@ -47,6 +60,8 @@ class Model:
         self.template = None  # None | "ab" | "x"   -> which family of fields is accepted
         self.grid = None  # None | "ab" | "x"
         self.a, self.b, self.x = list(data_a), list(data_b), list(data_x)
+        self.c = [complex(v, 0.5 + k) for k, v in enumerate(data_b)]
+        self.session_complex = False
 
     def _start(self, fam):
         if self.mode == "readonly":
@@ -73,10 +88,20 @@ class Model:
             return "RuntimeError"  # data shape unknown: writing was never started
         if self.template != fam:
             return "ValueError"
-        self.frames.append((float(t), tuple(data)))
+        self.frames.append((float(t), tuple(complex(v) for v in data)))
         return None
 
     def step(self, op):
+        if op in ("start", "track"):
+            if self.mode != "readonly" and self.template in (None, "ab"):
+                self.session_complex = False
+        if op == "startC":
+            err = self._start("ab")
+            if err is None:
+                self.session_complex = True
+            return err
+        if op == "appC":
+            return self._append("ab", self.c, 3.0)
         if op == "start":
             return self._start("ab")
         if op == "startX":
@@ -137,11 +162,13 @@ class Real:
             self.x = FieldCollection(
                 [ScalarField(gx, [5.0, 6.0, 7.0], label="p"), ScalarField(gx, [1.0, 1.0, 1.0], label="q")]
             )
+        self.c = self.b.copy(dtype=complex)
+        self.c.data[...] = (self.b.data + 1j * (0.5 + np.arange(self.b.data.size).reshape(self.b.data.shape)))
         self.kind = kind
         self.st = MemoryStorage(write_mode=mode)
 
     def flat(self, f):
-        return tuple(float(v) for v in self.np.asarray(f.data).ravel())
+        return tuple(complex(v) for v in self.np.asarray(f.data).ravel())
 
     def step(self, op):
         st = self.st
@@ -157,6 +184,10 @@ class Real:
             st.append(self.a)
         elif op == "appX":
             st.append(self.x, 3.5)
+        elif op == "startC":
+            st.start_writing(self.c)
+        elif op == "appC":
+            st.append(self.c, 3.0)
         elif op == "mutA":
             self.a.data += 10
         elif op == "end":
@@ -179,7 +210,7 @@ class Real:
             st.write_mode,
             st._data_shape,
             None if st._grid is None else tuple(st._grid.shape),
-            None if st._field is None else (type(st._field).__name__, tuple(st._field.grid.shape)),
+            None if st._field is None else (type(st._field).__name__, tuple(st._field.grid.shape), str(st._field.dtype)),
             None if st._dtype is None else str(st._dtype),
             tuple((float(t), d.tobytes()) for t, d in zip(st.times, st.data)),
             self.a.data.tobytes(),
@@ -204,14 +235,14 @@ def observe(real: Real, model: Model, op, hist, deep: bool):
     if [float(t) for t in st.times] != [t for t, _ in frames]:
         out.append(_err("times differ from model", hist, real=list(st.times), model=[t for t, _ in frames]))
     for i, (t, d) in enumerate(frames):
-        if tuple(float(v) for v in np.asarray(st.data[i]).ravel()) != d:
+        if tuple(complex(v) for v in np.asarray(st.data[i]).ravel()) != d:
             out.append(_err("stored frame differs from data at append time", hist, index=i))
             break
     if st.write_mode != model.mode:
         out.append(_err("write mode differs from model", hist, real=st.write_mode, model=model.mode))
     # no aliasing between stored frames and sources / other frames
     for i, d in enumerate(st.data):
-        for name in ("a", "b", "x"):
+        for name in ("a", "b", "x", "c"):
             if np.shares_memory(d, getattr(real, name)._data_full):
                 out.append(_err(f"stored frame aliases source field {name}", hist, index=i))
         for j in range(i):
@@ -256,7 +287,7 @@ def observe(real: Real, model: Model, op, hist, deep: bool):
             for i, d in enumerate(st.data):
                 if np.shares_memory(f._data_full, d):
                     out.append(_err("field read back aliases stored frame", hist, index=i))
-            for name in ("a", "b", "x"):
+            for name in ("a", "b", "x", "c"):
                 if np.shares_memory(f._data_full, getattr(real, name)._data_full):
                     out.append(_err("field read back aliases a source field", hist))
             for h in fields[:k]:
@@ -265,7 +296,7 @@ def observe(real: Real, model: Model, op, hist, deep: bool):
                     break
             f.data[...] = -99.0
         for i, (t, d) in enumerate(frames):
-            if tuple(float(v) for v in np.asarray(st.data[i]).ravel()) != d:
+            if tuple(complex(v) for v in np.asarray(st.data[i]).ravel()) != d:
                 out.append(_err("mutating a field read back changed a stored frame", hist, index=i))
         if model.template == "ab" and real.flat(real.a) != tuple(model.a):
             out.append(_err("mutating a field read back changed the source", hist))
@@ -284,7 +315,7 @@ def observe(real: Real, model: Model, op, hist, deep: bool):
                 lo = times[0] if lo is None else lo
                 hi = times[-1] if hi is None else hi
                 exp = [(t, d) for t, d in frames if lo <= t <= hi]
-                got = [(float(t), tuple(float(v) for v in np.asarray(d).ravel())) for t, d in zip(e.times, e.data)]
+                got = [(float(t), tuple(complex(v) for v in np.asarray(d).ravel())) for t, d in zip(e.times, e.data)]
                 if got != exp:
                     out.append(_err("extract_time_range differs from model", hist, range=rng, got=got, exp=exp))
                 elif [real.flat(f) for f in e] != [d for _, d in exp]:
@@ -292,7 +323,7 @@ def observe(real: Real, model: Model, op, hist, deep: bool):
         # copy: equal and independent
         c = st.copy()
         if [float(t) for t in c.times] != times or [
-            tuple(float(v) for v in np.asarray(d).ravel()) for d in c.data
+            tuple(complex(v) for v in np.asarray(d).ravel()) for d in c.data
         ] != [d for _, d in frames]:
             out.append(_err("copy() differs from stored frames", hist))
         if any(np.shares_memory(x, y) for x in c.data for y in st.data):
@@ -303,7 +334,7 @@ def observe(real: Real, model: Model, op, hist, deep: bool):
         ap = st.apply(lambda f, t: f * 2 + t)
         exp = [tuple(2 * v + t for v in d) for t, d in frames]
         if [float(t) for t in ap.times] != times or [
-            tuple(float(v) for v in np.asarray(d).ravel()) for d in ap.data
+            tuple(complex(v) for v in np.asarray(d).ravel()) for d in ap.data
         ] != exp:
             out.append(_err("apply() differs from function of stored frames", hist))
         if real.kind == "collection" and model.template == "ab":
@@ -311,7 +342,7 @@ def observe(real: Real, model: Model, op, hist, deep: bool):
                 ex = st.extract_field(fid)
                 k = len(frames[0][1]) // 2
                 exp = [d[idx * k : (idx + 1) * k] for _, d in frames]
-                got = [tuple(float(v) for v in np.asarray(d).ravel()) for d in ex.data]
+                got = [tuple(complex(v) for v in np.asarray(d).ravel()) for d in ex.data]
                 if got != exp or [float(t) for t in ex.times] != times:
                     out.append(_err("extract_field differs from model", hist, field=fid))
                 if [real.flat(f) for f in ex] != exp:
@@ -335,7 +366,7 @@ def observe(real: Real, model: Model, op, hist, deep: bool):
                 pass
         # derived objects did not disturb the original
         for i, (t, d) in enumerate(frames):
-            if tuple(float(v) for v in np.asarray(st.data[i]).ravel()) != d:
+            if tuple(complex(v) for v in np.asarray(st.data[i]).ravel()) != d:
                 out.append(_err("deriving a view changed a stored frame", hist, index=i))
     return out
 
@@ -353,6 +384,8 @@ def _replay(mode, kind, hist, check_all=False):
     viol = []
     for i, op in enumerate(hist):
         last = i == len(hist) - 1
+        if not enabled(op, model):
+            continue  # outside the alphabet in this state: a no-op
         exp = model.step(op)
         got = None
         try:
